@@ -100,6 +100,7 @@ func runC13(r *Run) {
 	var srv *httptest.Server
 	var curOIDC *web.OIDC
 	lifetimeChecked := 0
+	sleptFor := map[string]bool{}
 	codeN := 0
 	for _, c := range cases {
 		if c.store != curStore {
@@ -119,6 +120,8 @@ func runC13(r *Run) {
 		}
 		lu, _ := url.Parse(loc)
 		state := lu.Query().Get("state")
+		issuedState := state
+		exp0, found0 := web.VerifStateExpiry(curOIDC, issuedState)
 		// a state value lives two minutes (hook: expiry as recorded by the state store)
 		if exp, found := web.VerifStateExpiry(curOIDC, state); lifetimeChecked < 50 {
 			lifetimeChecked++
@@ -171,7 +174,18 @@ func runC13(r *Run) {
 		idp.mu.Lock()
 		idp.codes[code] = cr
 		idp.mu.Unlock()
+		if !sleptFor[c.store+c.point] && (c.point == "code-refused" || c.point == "no-id-token" || c.point == "bad-signature" || (r.Thorough() && c.point != "" && c.point != "unknown-state")) {
+			// once per failure point and store: let a second pass between issuance and callback, so
+			// that a renewed lifetime is told apart from the original one
+			sleptFor[c.store+c.point] = true
+			time.Sleep(1100 * time.Millisecond)
+		}
 		cbStatus, _, _ := get(cl, srv.URL+"/callback?state="+url.QueryEscape(state)+"&code="+code)
+		// whatever the callback did, the state it was issued with does not live longer than the two
+		// minutes it got at issuance (a retry path must not renew it)
+		if exp1, found1 := web.VerifStateExpiry(curOIDC, issuedState); found0 && found1 && exp1.After(exp0.Add(700*time.Millisecond)) {
+			r.Violation("c13-state-lifetime", "a state value issued by the gateway does not expire two minutes after issuance", fmt.Sprintf("store=%s: state %s expired at %s when issued; after a callback that failed at %q it expires at %s\n", c.store, issuedState, exp0.Format(time.RFC3339Nano), c.point, exp1.Format(time.RFC3339Nano)))
+		}
 		connStatus, connBody, _ := get(cl, srv.URL+"/connect?x=1")
 		observed = append(observed, obs{cbStatus, connStatus, connBody, fmt.Sprintf("store=%s failure point=%q claim %s=%q\ncallback status %d; following /connect: %d %q\n", c.store, c.point, c.claimKey, c.userName, cbStatus, connStatus, connBody)})
 		lines = append(lines, fmt.Sprintf("oidc-callback state=%s code=%s idtok=%s verifies=%s claims=%s user=%s at=%s sess=0 suser=-", f["state"], f["code"], f["idtok"], f["verifies"], f["claims"], f["user"], hx([]byte(at))))
